@@ -9,6 +9,7 @@ import (
 
 	"github.com/ipld/go-ipld-prime/datamodel"
 	"github.com/ipld/go-ipld-prime/node/basicnode"
+	"github.com/ipld/go-ipld-prime/schema"
 
 	"verif/internal/core"
 )
@@ -508,6 +509,7 @@ func runC01(c *core.Ctx) error {
 		}
 		done += k
 	}
+	c01Typed(c, c.Rand.Fork(), c.Pick(1500, 100000))
 	return nil
 }
 
@@ -551,4 +553,90 @@ func replayC01(c *core.Ctx, rp core.Replay) error {
 		return replayC12(c, rp)
 	}
 	return fmt.Errorf("unknown case")
+}
+
+// c01Typed: the read side of the node API over typed nodes (reflection binding; inferred and caller-supplied Go types),
+// within their schema's value space, at the type-level view and at the representation view: length, both iterators and
+// every lookup form agree; kind-inappropriate accessors answer errors, never panics; Copy into a generic builder and
+// DeepEqual against that copy agree with equality of the abstract values.
+func c01Typed(c *core.Ctx, r *core.Rand, n int) {
+	cfg := core.DefaultSchemaCfg
+	cfg.NullableDispatchUnion, cfg.KindedIntEnum, cfg.UnionAnyMember, cfg.EnumEmptyRename = 8, 8, 4, 0
+	cfg.TupleLooseOptional = 0 // known finding C08/bindnode-tuple-absent-before-present-field
+	for i := 0; i < n; i++ {
+		sc, err := genSchemaCase(r, cfg)
+		if err != nil {
+			continue
+		}
+		tv := core.GenInhabitant(sc.T, r, cfg, false)
+		ob := feed(sc, "type", "direct", core.TypeInput(tv), nil)
+		if ob.Outcome != "accepted" {
+			continue // acceptance is C09's business
+		}
+		tn, ok := ob.Node.(schema.TypedNode)
+		if !ok {
+			continue
+		}
+		for _, view := range []struct {
+			name string
+			n    datamodel.Node
+		}{{"type", tn}, {"repr", tn.Representation()}} {
+			caseID := "c01.typed " + view.name + " " + sc.Eng.Name() + " " + sc.Ty + " VAL " + tv.Term()
+			fail := func(sig, impl, want, detail string) {
+				c.Fail(sig, core.Replay{Kind: "oracle", Case: caseID, Impl: impl, Expected: want, Detail: detail})
+			}
+			v, rerr := readNodeSafe(view.n)
+			if rerr != nil {
+				fail("C01/typed-node-unreadable", rerr.Error(), "", "full read of the "+view.name+" view fails")
+				continue
+			}
+			c.Count(caseID, v.Size() >= 3)
+			c.Dist("typed-view:" + view.name)
+			if p := consistency(view.n, ""); p != "" {
+				fail("C01/lookup-iterator-length-disagree", p, "", "typed node, "+view.name+" view")
+			}
+			if row := accessorRow(view.n); strings.Contains(row, "panic") {
+				fail("C01/accessor-panics", row, "wrong-kind errors", "typed node, "+view.name+" view")
+			}
+			if strings.Contains(" "+v.Term()+" ", " a ") {
+				continue // absent entries have no generic counterpart to copy to
+			}
+			nb := basicnode.Prototype.Any.NewBuilder()
+			var cerr error
+			func() {
+				defer func() {
+					if x := recover(); x != nil {
+						cerr = fmt.Errorf("panic %v", x)
+					}
+				}()
+				cerr = datamodel.Copy(view.n, nb)
+			}()
+			if cerr != nil {
+				fail("C01/copy-differs", cerr.Error(), v.Term(), "Copy of the "+view.name+" view into a generic builder fails")
+				continue
+			}
+			cp := nb.Build()
+			if got := termOf(cp); got != v.Term() {
+				fail("C01/copy-differs", got, v.Term(), "Copy of the "+view.name+" view")
+			}
+			eq := func(a, b datamodel.Node) (res string) {
+				defer func() {
+					if x := recover(); x != nil {
+						res = fmt.Sprintf("panic %v", x)
+					}
+				}()
+				return fmt.Sprint(datamodel.DeepEqual(a, b))
+			}
+			if e1, e2 := eq(view.n, cp), eq(cp, view.n); e1 != "true" || e2 != "true" {
+				fail("C01/deepequal-wrong", e1+"/"+e2, "true", "DeepEqual(typed "+view.name+" view, generic copy)")
+			}
+			if mv := mutateVal(v, r); !valEq(mv, v) {
+				if mn, err := core.BuildBasic(mv, nil); err == nil {
+					if e1, e2 := eq(view.n, mn), eq(mn, view.n); e1 != "false" || e2 != "false" {
+						fail("C01/deepequal-wrong", e1+"/"+e2, "false", "DeepEqual(typed "+view.name+" view, "+mv.Term()+")")
+					}
+				}
+			}
+		}
+	}
 }
